@@ -1,6 +1,10 @@
 # property id -> how the driver runs its check. Case counts (not wall-clock) bound every run;
 # budget_s is only a ceiling that turns a stuck run into "inconclusive".
+SIM = dict(pkg="sim", gomaxprocs=1)
 CHECKS = {
+    "C02": dict(SIM, test="TestC02", level="exploration",
+                quick=dict(cases=4000, shards=1, budget_s=600),
+                thorough=dict(cases=40000, shards=16, budget_s=3600)),
     "C16": dict(pkg="pure", test="TestC16", level="exploration",
                 quick=dict(cases=20000, shards=1, budget_s=300),
                 thorough=dict(cases=200000, shards=16, budget_s=1800)),
